@@ -8,7 +8,7 @@ for d in ${@:-$(ls seeded)}; do
   m=seeded/$d/meta.json
   prop=$(python3 -c "import json;print(json.load(open('$m'))['property'])")
   with=$(python3 -c "import json;print(json.load(open('$m')).get('detect_with') or '')")
-  if ! git -C /repo apply --check seeded/$d/patch.diff 2>/dev/null; then echo "$d: patch no longer applies to HEAD (skipped)"; continue; fi
+  if ! git -C /repo apply --check /verif/seeded/$d/patch.diff 2>/dev/null; then echo "$d: patch no longer applies to HEAD (skipped)"; continue; fi
   target=${with:-$prop}
   out=$(tools/try_seed.sh seeded/$d/patch.diff $target 2>&1)
   if echo "$out" | grep -q "^VIOLATION property=$target"; then got=caught; else got=missed; fi
